@@ -6,11 +6,14 @@
   [A]: literals are exact; `+` / `-` / `*` compute the exact result and then round ONCE with `fix`;
   `fix` is the identity when the exact result fits (≤ 28 digits, exponent in range) and otherwise
   rounds half-even to 28 digits (nearest, ties to even — `roundDiv_halfEven_nearest`);
-  comparisons are comparisons of the exact scaled integers.  [B] pending: `div_correct`.
+  comparisons are comparisons of the exact scaled integers.  [B]: `fix` rounds to nearest / ties to even over its
+  whole domain (`fix_rounds_to_nearest`), and `/` returns the half-even rounding of the TRUE quotient
+  (`division_is_correctly_rounded`, SqLemmas/DivLemmas.lean + FixLemmas.lean).
 -/
 import Sq.Machine
 import SqLemmas.DecLemmas
 import SqLemmas.DivLemmas
+import SqLemmas.FixLemmas
 namespace SqProps.C08
 open Sq Sq.Dec
 
@@ -174,4 +177,61 @@ theorem div_exact (neg : Bool) (num den k : Nat) (hd : 0 < den) (hr : num % den 
 example : divNum ⟨false, 1, 0⟩ ⟨false, 3, 0⟩ % divDen ⟨false, 1, 0⟩ ⟨false, 3, 0⟩ ≠ 0 := by decide +kernel
 example : (Dec.div ⟨false, 2, 0⟩ ⟨false, 3, 0⟩).toOption = some ⟨false, 6666666666666666666666666667, -28⟩ := by decide +kernel
 
-end SqProps.C08
+/-! ### [B] assembled: `fix` over its whole domain, and `+ - * /` as "exact, then rounded once to nearest-even" -/
+
+/-- **`fix` rounds to nearest, ties to even — for every decimal it accepts**: the result keeps the sign, stands `j ≥ 0`
+    places higher, differs from the exact argument by at most half a unit of its own last place, and in the half-way
+    case its coefficient is even; with at most 28 significant digits (`fix_result_digits`) -/
+theorem fix_rounds_to_nearest (d r : Dec) (h : fix d = .ok r) (hnz : d.coeff ≠ 0) :
+    r.neg = d.neg ∧ ∃ j : Nat, r.exp = d.exp + j ∧
+      (2 * d.coeff ≤ 2 * (r.coeff * 10 ^ j) + 10 ^ j ∧ 2 * (r.coeff * 10 ^ j) ≤ 2 * d.coeff + 10 ^ j) ∧
+      ((2 * d.coeff = 2 * (r.coeff * 10 ^ j) + 10 ^ j ∨ 2 * (r.coeff * 10 ^ j) = 2 * d.coeff + 10 ^ j) → r.coeff % 2 = 0) :=
+  fix_nearest d r h hnz
+
+/-- the three cases of `fix`, by name: unchanged / half-even quotient at the 28-digit exponent / carry to 10^27 -/
+theorem fix_case_analysis (d r : Dec) (h : fix d = .ok r) (hnz : d.coeff ≠ 0) :
+    (fixExp d ≤ d.exp ∧ r = d) ∨
+    (d.exp < fixExp d ∧ ndigits (fixQ d) ≤ 28 ∧ r = { d with coeff := fixQ d, exp := fixExp d }) ∨
+    (d.exp < fixExp d ∧ fixQ d = 10 ^ 28 ∧ r = { d with coeff := 10 ^ 27, exp := fixExp d + 1 }) :=
+  fix_cases d r h hnz
+
+/-- **`+`, `-`, `*` are correctly rounded**: the result is the EXACT sum / difference / product (`addExact`,
+    `mulExact`: integer arithmetic on coefficients, no rounding) rounded ONCE, to nearest, ties to even -/
+theorem add_sub_mul_correctly_rounded (a b r : Dec) :
+    (Dec.add a b = .ok r → (addExact a b).coeff ≠ 0 → ∃ j : Nat, r.exp = (addExact a b).exp + j ∧
+      2 * (addExact a b).coeff ≤ 2 * (r.coeff * 10 ^ j) + 10 ^ j ∧ 2 * (r.coeff * 10 ^ j) ≤ 2 * (addExact a b).coeff + 10 ^ j) ∧
+    (Dec.sub a b = .ok r → (addExact a (negate b)).coeff ≠ 0 → ∃ j : Nat, r.exp = (addExact a (negate b)).exp + j ∧
+      2 * (addExact a (negate b)).coeff ≤ 2 * (r.coeff * 10 ^ j) + 10 ^ j ∧
+      2 * (r.coeff * 10 ^ j) ≤ 2 * (addExact a (negate b)).coeff + 10 ^ j) ∧
+    (Dec.mul a b = .ok r → a.coeff * b.coeff ≠ 0 → ∃ j : Nat, r.exp = a.exp + b.exp + j ∧
+      2 * (a.coeff * b.coeff) ≤ 2 * (r.coeff * 10 ^ j) + 10 ^ j ∧ 2 * (r.coeff * 10 ^ j) ≤ 2 * (a.coeff * b.coeff) + 10 ^ j) := by
+  refine ⟨fun h hnz => ?_, fun h hnz => ?_, fun h hnz => ?_⟩
+  · obtain ⟨_, j, he, hb, _⟩ := fix_nearest _ r h hnz
+    exact ⟨j, he, hb⟩
+  · obtain ⟨_, j, he, hb, _⟩ := fix_nearest _ r h hnz
+    exact ⟨j, he, hb⟩
+  · obtain ⟨_, j, he, hb, _⟩ := fix_nearest (mulExact a b) r h hnz
+    exact ⟨j, he, hb⟩
+
+/-- `roundRat n d` is the integer nearest to the rational `n / d`, ties to even (the specification of half-even
+    rounding, stated without rationals: `|n − roundRat·d| ≤ d / 2`) -/
+theorem roundRat_is_nearest (n d : Nat) (hd : 0 < d) :
+    (2 * n ≤ 2 * (roundRat n d * d) + d ∧ 2 * (roundRat n d * d) ≤ 2 * n + d) ∧
+    ((2 * n = 2 * (roundRat n d * d) + d ∨ 2 * (roundRat n d * d) = 2 * n + d) → roundRat n d % 2 = 0) :=
+  roundRat_nearest n d hd
+
+/-- **`/` is correctly rounded**: for non-zero operands and an inexact quotient, the coefficient `/` returns IS the
+    half-even rounding of the true rational quotient `divNum / divDen` at the digit position `k ≥ 1` chosen by the
+    context (28 significant digits), at exponent `divExp + k` — or, when that rounding is exactly 10^28, the same
+    number written 10^27 · 10^(divExp + k + 1).  `a / b = (divNum / divDen) · 10^divExp` holds by construction
+    (`divNum`, `divDen`, `divExp` only move powers of ten between numerator, denominator and exponent). -/
+theorem division_is_correctly_rounded (a b r : Dec) (ha : a.coeff ≠ 0) (hb : b.coeff ≠ 0)
+    (hr : divNum a b % divDen a b ≠ 0) (h : Dec.div a b = .ok r) :
+    r.neg = (a.neg != b.neg) ∧ ∃ k : Nat, 1 ≤ k ∧
+      ((r.coeff = roundRat (divNum a b) (divDen a b * 10 ^ k) ∧ r.exp = divExp a b + (k : Int) ∧ r.digits ≤ 28) ∨
+       (roundRat (divNum a b) (divDen a b * 10 ^ k) = 10 ^ 28 ∧ r.coeff = 10 ^ 27 ∧ r.exp = divExp a b + (k : Int) + 1)) :=
+  div_correctly_rounded a b r ha hb hr h
+
+/-- non-vacuity of the carry case of `fix`: 28 nines and a five round up to 10^27 · 10^2 -/
+example : (fix ⟨false, 99999999999999999999999999995, 0⟩).toOption = some ⟨false, 10 ^ 27, 2⟩ := by decide +kernel
+
